@@ -34,7 +34,7 @@ Definition filter_freq (st : pstate) (utt : list str) (i j : nat) : nat :=
          (j, cget str_eqb (lex st) (cand utt i j))).
 
 Definition boundary_ok (st : pstate) (utt : list str) (i j : nat) : bool :=
-  let prev := concat (pyslice utt (zn i - window) (zn i)) in
+  let prev := concat (pyslice utt (Z.max 0 (zn i - window)) (zn i)) in      (* fix e3d63e5: max(0, i - window) *)
   if negb (Nat.eqb i 0) && negb (cmem str_eqb (en st) prev) then false
   else
     let nxt := concat (pyslice utt (zn j + 1) (zn j + 1 + window)) in
@@ -50,7 +50,7 @@ Definition process_candidate (do_update : bool) (st : pstate) (seg : list str)
     if (2 <=? length (pyslice utt (zn i) (zn j + 1)))
     then ({| lex := lex';
              beg := cadd str_eqb (beg st) (concat (pyslice utt (zn i) (zn i + window))) 1;
-             en := cadd str_eqb (en st) (concat (pyslice utt (zn j + 1 - window) (zn j + 1))) 1 |},
+             en := cadd str_eqb (en st) (concat (pyslice utt (Z.max 0 (zn j + 1 - window)) (zn j + 1))) 1 |},
           seg ++ [w])
     else ({| lex := lex'; beg := beg st; en := en st |}, seg ++ [w])
   else (st, seg ++ [w]).
